@@ -77,12 +77,24 @@ def run(tier, seed, t0):
             k += 1
     files, summ = vlib.run_sessions(PROP, scn, tier, hang_ms=5000 if tier == "quick" else 20000)
     consumed, bad = vlib.validate_traces("ConnTrace", "ConnTrace.cfg", files, timeout=3000, xmx="4g")
-    v = vlib.Verdict(PROP, own_kinds=("crash-", "connclose-slowcaller"))
+    v = vlib.Verdict(PROP, own_kinds=("crash-", "connclose-slowcaller", "open-"))
     v.absorb(bad)
+    # the same over loopback TCP (epoll's edge-triggered readiness, which the in-memory transport does not imitate
+    # exactly): the server ends the stream right behind the frame that completes the handshake
+    vlib.build_harness("vh_tcp")
+    tcp_runs = 4 if tier == "quick" else 40
+    tcp_out = vlib.outdir(PROP, "tcp", clean=True)
+    res = json.loads(vlib.run_vh(["run", "--out", tcp_out, "--runs", str(tcp_runs)], bin="vh_tcp", timeout=900)[1]
+                     .strip().splitlines()[-1])
+    tcp_consumed, tcp_bad = vlib.validate_traces("TcpTrace", "TcpTrace.cfg", res["files"])
+    v.absorb(tcp_bad)
+    bad = bad + tcp_bad
+    consumed += tcp_consumed
     kinds = Counter((s["kind"], s["fault"]) for s in scn)
     distinct = len({(s["kind"], s["fault"], s["at"]) for s in scn})
     vlib.write_evidence(
-        PROP, tier, seed, t0, mc, traces_validated=summ["scenarios"], evaluations=len(scn), distinct=distinct,
+        PROP, tier, seed, t0, mc, traces_validated=summ["scenarios"] + res["evaluations"], evaluations=len(scn) + res["evaluations"],
+        distinct=distinct + 2,
         rule="one scripted session that uses every part of the client (2 channels, declare, consume, confirm mode with "
              "listener, multi-frame deliveries, get with content, publishes, a call in flight whose reply is withheld, cancel, "
              "channel close, connection close; server->client stream of %d bytes, %d client writes) is cut at: every byte "
@@ -90,7 +102,9 @@ def run(tier, seed, t0):
              "every step boundary with an unparseable frame / EOF / reset / failing next write; plus sessions in which the "
              "server (or the CloseOk of a client close, or a channel close) ends things right behind the reply of a caller "
              "that is held just before it picks its reply up; plus client-side protocol exceptions (5 illegal server "
-             "frames) with the server still talking behind the offending frame. Other threads are inside a "
+             "frames) with the server still talking behind the offending frame; plus, over real loopback TCP, a server "
+             "that hangs up right behind Connection.OpenOk (or one more frame behind it) with an idle waiter on the "
+             "connection (TcpTrace). Other threads are inside a "
              "blocked call, a publish or own a consumer queue at that moment. distinct/non-trivial = distinct (kind of "
              "fault, position)" % (total, writes, "all offsets" if tier == "thorough" else
                                    "every 3rd offset plus a seeded sample of 150"),
